@@ -488,6 +488,13 @@ pub fn gen_macro_run(seed: u64, fixtures: &[crate::procsim::CorpusDoc]) -> Macro
             o.replaces.push((n, rng.pick(&["my_types::Custom", "::std::string::String", "crate::Thing"]).to_string(), impls));
         }
     }
+    // the same type named twice in `patch`: like repeated `with_patch` calls, the
+    // later entry replaces the earlier one
+    if let Some((n, _, _)) = o.patches.first().cloned() {
+        if rng.chance(1, 5) {
+            o.patches.push((n.clone(), Some(format!("{n}Again")), vec![]));
+        }
+    }
     // a second patch/replace entry whose key differs only in spelling from an
     // existing key (lower-camel instead of Pascal case): on its own it names no
     // type and is silently ignored (documented), so it must not influence the result
